@@ -303,6 +303,10 @@ func init() {
 			if !strings.Contains(body, "if v.SheetID > sheetID") || !strings.Contains(body, "sheetID++") {
 				fail("NewSheet: max+1 sheetID skeleton")
 			}
+			if !strings.Contains(body, "_, inPkg := f.Pkg.Load(sheetXMLPath)") || !strings.Contains(body, "_, inSheet := f.Sheet.Load(sheetXMLPath)") ||
+				!strings.Contains(body, "if !inPkg && !inSheet {") {
+				fail("NewSheet: loop skipping the ids whose worksheet part exists")
+			}
 		} else {
 			fail("func (*File) NewSheet")
 		}
